@@ -12,7 +12,8 @@ PROP = "C15"
 RULE = ("every spec of all four universes (all MolGraph classes n<=4 over {C,H,O} also expressed in the three other classes, "
         "reaction graphs n<=3 with every role assignment incl. fleeting, stereo stars of every class x every stereoisomer x "
         "unspecified parity x lone-pair placeholder, two-unit graphs, stereo reaction graphs with all 7 non-empty kind combinations "
-        "for atom and bond stereo changes, symmetric graphs, empty graph) x three identifier pools (0..n-1, negative/mixed, >=2^31). "
+        "for atom and bond stereo changes, symmetric graphs, empty graph) x three identifier pools (0..n-1, negative/mixed, >=2^31) and once with extra attributes (bond_order, order, charge, "
+        "free-form) on every atom and bond. "
         "Oracle: json_deserialize(json_serialize(g)) has the same class and an identical normalised snapshot (atoms, elements, "
         "bonds, roles, exact descriptor tuples and parities, changes); == and hash agree with the original.  distinct = (spec, pool)")
 ASSUMPTIONS = ["atom/bond attributes other than the element and the reaction role are not part of the JSON format and are not compared"]
@@ -74,11 +75,23 @@ def run_item(item):
     for m0 in (colliding_specs() if item.get("colliding") else specs(item["tier"])[item["lo"]:item["hi"]]):
         ids = list(m0.atoms)
         for pname, pool in ((("colliding-ids", None),) if item.get("colliding") else
-                            (("0..n", None), ("negative", NEGPOOL), ("huge", BIGPOOL))):
+                            (("0..n", None), ("negative", NEGPOOL), ("huge", BIGPOOL), ("extra-attributes", None))):
             if pool is not None and (not ids or len(ids) > len(pool)):
                 continue
             m = m0 if pool is None else m0.copy().relabel(dict(zip(ids, pool)))
             g = U.build(m)
+            if pname == "extra-attributes":
+                # attributes that are not part of the format (a bond order, a charge, free-form values) on every atom and bond:
+                # whatever happens to them, elements, roles, descriptors and changes must survive
+                if not ids:
+                    continue
+                for a in m.atoms:
+                    g.set_atom_attribute(a, "charge", -1)
+                    g.set_atom_attribute(a, "x", "y")
+                for b in m.bonds:
+                    g.set_bond_attribute(*b, "bond_order", 2)
+                    g.set_bond_attribute(*b, "order", 1.5)
+                    g.set_bond_attribute(*b, "w", "z")
             if pname == "negative" and ids:
                 # the source has an editing history: every atom is added a second time (same element), one bond is removed and
                 # added again - the content is the same and must round-trip like a freshly built graph
